@@ -92,6 +92,7 @@ def verify_unit(uname, extra=(), want_vac=True, tag=""):
         "unit_obj": unit, "crate": crate,
         "functions": unit.functions, "types": unit.types, "clauses": unit.clauses,
         "edits": unit.edits, "macro_rewrites": unit.macro_rewrites, "hints_lost": unit.hints_lost,
+        "count_only": unit.count_only,
         "summary": summ, "failures": failures, "undecided": undecided,
         "cmd": main["cmd"], "trusted_scan": trusted_scan(unit.text()),
         "raw_err": main["raw_err"] if summ["tool_error"] else "",
@@ -290,6 +291,8 @@ def cmd_check(args):
                 continue
             if f["function"] in by_vname and by_vname[f["function"]]["fn"] not in relevant:
                 continue   # a contracted function that no clause of this property depends on
+            if u.get("count_only") is not None and f["function"].split("::")[-1] not in u["count_only"]:
+                continue   # shared text re-verified in this unit; counted in the unit that owns it
             obligations += 1
             if f["success"]:
                 discharged += 1
@@ -299,6 +302,8 @@ def cmd_check(args):
                                 "smt_us": f["time_us"], "rlimit": f["rlimit"]})
         for fn in u["functions"]:
             if fn.get("kf") or fn["fn"] not in relevant:
+                continue
+            if u.get("count_only") is not None and fn["emitted_as"] not in u["count_only"]:
                 continue
             fns_under_contract.append({k: fn[k] for k in ("unit", "fn", "file", "line", "end_line", "body_sha256")})
         trusted.extend("%s: %s" % (u["unit"], t) for t in u["trusted_scan"])
